@@ -21,11 +21,11 @@ LEVEL = 'exploration'
 RULE = ('every character of the frozen invertible alphabet alone and in 5 neighbour contexts; every ordered pair of alphabet '
         'classes (control-word ending, control symbol, accent+letter, \\ensuremath{..}, brace escape, other macro form, ASCII '
         'letter / digit / punctuation / space / newline) with >= 8 (quick) / 40 (thorough) sampled pairs per cell, also with a '
-        'third character; random strings of length <= 8; each under the 4 brace-protection schemes x {default, strict} '
+        'third character; every ordered pair of admissible ASCII characters, and sampled punctuation triples; random strings of length <= 8; each under the 4 brace-protection schemes x {default, strict} '
         'latex2text whitespace policy. Non-trivial = string with >= 2 characters of which >= 1 has a built-in encoding; '
         'distinct = distinct string.')
 EXHAUSTIVE = {'quick': False, 'thorough': False}
-ASSUMPTIONS = ['strings never contain the ASCII ligature pairs (--, ``, \'\', !`, ?`, <<, >>, ,,), two adjacent blanks or a '
+ASSUMPTIONS = ['strings never contain the ASCII ligature pairs (--, ``, \'\', !`, ?`: the specials the tables of pylatexenc define), two adjacent blanks or a '
                'paragraph break (whitespace layout is not part of the statement)',
                'the alphabet file is frozen; characters are never re-qualified at run time']
 SCHEMES = ['braces', 'braces-all', 'braces-almost-all', 'braces-after-macro']
@@ -52,15 +52,18 @@ def plan(tier, seed):
     if tier == 'quick':
         return [{'kind': 'single', 'k': k, 'n': 5, 'name': 'single%d' % k} for k in range(5)] + \
                [{'kind': 'pairs', 'per_cell': 8, 'k': k, 'n': 6, 'name': 'pairs%d' % k} for k in range(6)] + \
-               [{'kind': 'random', 'count': 1500, 'name': 'rand%d' % k} for k in range(5)]
+               [{'kind': 'random', 'count': 1500, 'name': 'rand%d' % k} for k in range(5)] + \
+               [{'kind': 'asciipairs', 'k': k, 'n': 4, 'triples': 2000, 'name': 'ascii%d' % k} for k in range(4)]
     return [{'kind': 'single', 'k': k, 'n': 8, 'name': 'single%d' % k} for k in range(8)] + \
            [{'kind': 'pairs', 'per_cell': 40, 'k': k, 'n': 12, 'name': 'pairs%d' % k} for k in range(12)] + \
-           [{'kind': 'random', 'count': 25000, 'name': 'rand%d' % k} for k in range(12)]
+           [{'kind': 'random', 'count': 25000, 'name': 'rand%d' % k} for k in range(12)] + \
+           [{'kind': 'asciipairs', 'k': k, 'n': 8, 'triples': 40000, 'name': 'ascii%d' % k} for k in range(8)]
 
 
 def floors(tier):
     return {'evaluations': 10000, 'distinct_nontrivial': 8000, 'round_trips': 80000,
-            'histkeys:class_pair': 100, 'histkeys:scheme_policy': 8, 'alphabet_characters_alone': 1300}
+            'histkeys:class_pair': 100, 'histkeys:scheme_policy': 8, 'alphabet_characters_alone': 1300,
+            'ascii_pairs': 8000}
 
 
 def setup(rec):
@@ -170,6 +173,32 @@ def run_shard(desc, rec):
                 if (ci + n) % 257 == 0:
                     rec.sample({'s': s, 'encoded': enc('braces').unicode_to_latex(s)})
                 check_case({'s': s}, rec)
+    elif kind == 'asciipairs':
+        # every ordered pair of admissible ASCII characters (a pair that the decoder fuses into one character --
+        # a ligature the encoder does not break up -- exists only in strings), then sampled triples
+        asc = [chr(c) for c in d['ascii']]
+        idx = 0
+        for x in asc:
+            for y in asc:
+                idx += 1
+                if idx % desc['n'] != desc['k']:
+                    continue
+                for s in (x + y, 'a' + x + y + 'b'):
+                    if not admissible(s):
+                        continue
+                    rec.case()
+                    if len(s) == 2:
+                        rec.monitor('ascii_pairs')
+                    rec.nontrivial(s)
+                    check_case({'s': s}, rec)
+        punct = [c for c in asc if not c.isalnum()]
+        for i in range(desc['triples']):
+            s = ''.join(rng.choice(punct) for _ in range(rng.randint(3, 4)))
+            if not admissible(s):
+                continue
+            rec.case()
+            rec.nontrivial(s)
+            check_case({'s': s}, rec)
     else:
         asc = [chr(c) for c in d['ascii']]
         inv = [chr(c) for c in d['invertible']]
